@@ -8,7 +8,7 @@ WT=/tmp/confirm-$ID
 git -C /repo worktree remove --force $WT >/dev/null 2>&1
 git -C /repo worktree add -q $WT HEAD || exit 2
 cd $WT
-TS=TBB; [ "$MODE" = omp ] && TS=OpenMP
+TS=TBB; [ "$MODE" = omp ] && TS=OpenMP; [ "$MODE" = int ] && TS=Internal
 build() { cmake -G Ninja -S $WT -B $WT/_build -DBUILD_TESTING=ON -DCMAKE_BUILD_TYPE=RelWithDebInfo -DRKCOMMON_TASKING_SYSTEM=$TS >/dev/null 2>&1 && cmake --build $WT/_build >/dev/null 2>&1; }
 demo() {  # $1 = output binary
   case $MODE in
@@ -16,6 +16,7 @@ demo() {  # $1 = output binary
     hdra) clang++ -std=c++11 -g -O1 -fsanitize=address -I$WT -I$WT/_build $OUT/$ID/demo.cpp -o $1 2>/dev/null;;
     hdrg) g++ -std=c++11 -O2 -pthread -I$WT -I$WT/_build $OUT/$ID/demo.cpp -o $1 2>/dev/null;;
     sh) true;;
+    int) g++ -std=c++11 -O1 -g -pthread -DRKCOMMON_TASKING_INTERNAL -I$WT -I$WT/_build $OUT/$ID/demo.cpp $WT/_build/librkcommon.so -Wl,-rpath,$WT/_build -o $1 2>/dev/null;;
     dl) g++ -std=c++11 -O1 -g -pthread -rdynamic -I$WT -I$WT/_build $OUT/$ID/demo.cpp -o $1 $WT/_build/librkcommon.so -Wl,-rpath,$WT/_build -ldl 2>/dev/null;;
     so) g++ -std=c++11 -g -I$WT -I$WT/_build $OUT/$ID/demo.cpp $WT/_build/librkcommon.so -Wl,-rpath,$WT/_build -o $1 2>/dev/null;;
     so+src:*) clang++ -std=c++11 -g -O1 -fsanitize=address,undefined -fno-sanitize-recover=all -I$WT -I$WT/_build $OUT/$ID/demo.cpp $WT/${MODE#so+src:} $WT/_build/librkcommon.so -Wl,-rpath,$WT/_build -o $1 2>/dev/null;;
